@@ -146,7 +146,14 @@ CL_PRELUDE = r'''
 typedef struct BW { int d; } BW;
 size_t g_clock, g_t_sink_cleanup, g_sink_cleanups, g_n_removed, g_stores, g_t_first_store; size_t g_k; bool g_tracked_has_flag, g_tracked_flag_stored, g_tracked_erased_from_map; size_t g_lookup_i;
 /* removed_loggers: n names, one arbitrary tracked index g_k */
-size_t LM_CLEANUP(BW* self) __CPROVER_assigns(g_n_removed) __CPROVER_ensures(RET == g_n_removed && g_n_removed <= (((size_t)1) << 30));
+bool g_has_invalidated; size_t g_flushes, g_t_flush, g_t_lm_cleanup;
+static inline bool LM_has_invalidated_loggers(BW* self) { return g_has_invalidated; }
+/* _flush_and_run_active_sinks (units BW.flush_sinks / BW.collect_sinks): flushes every sink of every registered logger */
+void BW_flush_all_sinks(BW* self, bool periodic, int interval_ms)
+__CPROVER_requires(!periodic && interval_ms == 0) /*@ C06 "the flush before a logger is erased is unconditional (zero interval)" */
+__CPROVER_assigns(g_clock, g_flushes, g_t_flush) __CPROVER_ensures(g_clock == OLD(g_clock) + 1 && g_flushes == OLD(g_flushes) + 1 && g_t_flush == g_clock);
+/* LoggerManager::cleanup_invalidated_loggers erases something only if there were invalidated loggers */
+size_t LM_CLEANUP(BW* self) __CPROVER_assigns(g_n_removed, g_clock, g_t_lm_cleanup) __CPROVER_ensures(RET == g_n_removed && g_n_removed <= (((size_t)1) << 30) && (!g_has_invalidated ==> g_n_removed == 0) && g_clock == OLD(g_clock) + 1 && g_t_lm_cleanup == g_clock);
 void SM_cleanup_unused_sinks(BW* self) __CPROVER_assigns(g_clock, g_t_sink_cleanup, g_sink_cleanups) __CPROVER_ensures(g_clock == OLD(g_clock) + 1 && g_t_sink_cleanup == g_clock && g_sink_cleanups == OLD(g_sink_cleanups) + 1);
 bool FLAGS_find(BW* self, size_t i) __CPROVER_assigns(g_lookup_i) __CPROVER_ensures(g_lookup_i == i && (i == g_k ? ((RET ? 1 : 0) == ((g_tracked_has_flag && !g_tracked_erased_from_map) ? 1 : 0)) : 1));
 void FLAG_store_true_and_erase(BW* self, size_t i)
@@ -158,10 +165,11 @@ __CPROVER_ensures(i == g_k ? (g_tracked_flag_stored && g_tracked_erased_from_map
 cleanup_loggers = dict(
     name='BW.cleanup_loggers', primary='C17', props={'C17'}, kind='S',
     desc='BackendWorker::_cleanup_invalidated_loggers: unused sinks are destroyed after loggers were erased and before any blocked remover is released; a flag is stored only for a logger that was actually erased',
-    structs=[], prelude=CL_PRELUDE, enforce='BW__cleanup_invalidated_loggers', replace=['LM_CLEANUP', 'SM_cleanup_unused_sinks', 'FLAGS_find', 'FLAG_store_true_and_erase'], loopcontracts=True,
+    structs=[], prelude=CL_PRELUDE, enforce='BW__cleanup_invalidated_loggers', replace=['LM_CLEANUP', 'BW_flush_all_sinks', 'SM_cleanup_unused_sinks', 'FLAGS_find', 'FLAG_store_true_and_erase'], loopcontracts=True,
     funcs=[dict(src=dict(header=BH, cls='BackendWorker', name='_cleanup_invalidated_loggers'), src_params=[], cfun='BW__cleanup_invalidated_loggers', sig='void BW__cleanup_invalidated_loggers(BW* self)',
                 cls_c='BW', member_fields=[],
-                pre_rules=[(r'std::vector<std::string>\s+const\s+removed_loggers\s*=\s*_logger_manager\.cleanup_invalidated_loggers\s*\(.*?\}\s*\)\s*;', 'size_t const removed_loggers_n = LM_CLEANUP(self);', 1),
+                pre_rules=[(r'_logger_manager\.has_invalidated_loggers\(\)', 'LM_has_invalidated_loggers(self)'), (r'_flush_and_run_active_sinks\(false,\s*std::chrono::milliseconds\{0\}\)', 'BW_flush_all_sinks(self, false, 0)'),
+                           (r'std::vector<std::string>\s+const\s+removed_loggers\s*=\s*_logger_manager\.cleanup_invalidated_loggers\s*\(.*?\}\s*\)\s*;', 'size_t const removed_loggers_n = LM_CLEANUP(self);', 1),
                            (r'!removed_loggers\.empty\(\)', '(removed_loggers_n != 0)', 1), (r'_sink_manager\.cleanup_unused_sinks\(\)\s*;', 'SM_cleanup_unused_sinks(self);', 1),
                            (r'for\s*\(auto const& removed_logger_name : removed_loggers\)', 'for (size_t removed_i = 0; removed_i < removed_loggers_n; ++removed_i)', 1),
                            (r'auto\s+search_it\s*=\s*_logger_removal_flags\.find\(removed_logger_name\)\s*;', 'bool const found = FLAGS_find(self, removed_i);', 1),
@@ -169,15 +177,16 @@ cleanup_loggers = dict(
                            (r'search_it->second->store\(true\)\s*;\s*_logger_removal_flags\.erase\(search_it\)\s*;', 'FLAG_store_true_and_erase(self, removed_i);', 1)],
                 loops={0: r'''
 __CPROVER_assigns(removed_i, g_lookup_i, g_clock, g_stores, g_t_first_store, g_tracked_flag_stored, g_tracked_erased_from_map)
-__CPROVER_loop_invariant(removed_i <= removed_loggers_n && g_stores <= removed_i && g_clock <= removed_i + 1 && g_clock >= 1 && g_t_sink_cleanup == 1 && removed_loggers_n == g_n_removed)
+__CPROVER_loop_invariant(removed_i <= removed_loggers_n && g_stores <= removed_i && g_clock <= removed_i + 3 && g_t_sink_cleanup >= 2 && g_t_sink_cleanup <= 3 && g_clock >= g_t_sink_cleanup && removed_loggers_n == g_n_removed)
 __CPROVER_loop_invariant((g_tracked_flag_stored ? 1 : 0) == ((removed_i > g_k && g_tracked_has_flag) ? 1 : 0))
 __CPROVER_loop_invariant((g_tracked_erased_from_map ? 1 : 0) == (g_tracked_flag_stored ? 1 : 0))
 __CPROVER_loop_invariant(g_stores > 0 ==> g_t_first_store > g_t_sink_cleanup)
 __CPROVER_decreases(removed_loggers_n - removed_i)
 '''},
                 contract=r'''
-__CPROVER_requires(__CPROVER_is_fresh(self, sizeof(*self)) && g_clock == 0 && g_sink_cleanups == 0 && g_stores == 0 && !g_tracked_flag_stored && !g_tracked_erased_from_map && g_t_sink_cleanup == 0)
-__CPROVER_assigns(g_clock, g_t_sink_cleanup, g_sink_cleanups, g_n_removed, g_stores, g_t_first_store, g_tracked_flag_stored, g_tracked_erased_from_map, g_lookup_i)
+__CPROVER_requires(__CPROVER_is_fresh(self, sizeof(*self)) && g_clock == 0 && g_sink_cleanups == 0 && g_stores == 0 && !g_tracked_flag_stored && !g_tracked_erased_from_map && g_t_sink_cleanup == 0 && g_flushes == 0)
+__CPROVER_assigns(g_clock, g_t_sink_cleanup, g_sink_cleanups, g_n_removed, g_stores, g_t_first_store, g_tracked_flag_stored, g_tracked_erased_from_map, g_lookup_i, g_flushes, g_t_flush, g_t_lm_cleanup)
+__CPROVER_ensures(g_n_removed != 0 ==> (g_flushes == 1 && g_t_flush < g_t_lm_cleanup)) /*@ C06,C17 "every sink is flushed before a logger is erased: what was written through a sink the backend is about to lose sight of is on disk first" */
 __CPROVER_ensures(g_sink_cleanups == (g_n_removed != 0 ? 1 : 0)) /*@ C17 "sinks no longer referenced are destroyed (files closed) exactly when loggers were erased" */
 __CPROVER_ensures(g_stores > 0 ==> (g_sink_cleanups == 1 && g_t_sink_cleanup < g_t_first_store)) /*@ C17 "a blocked remover is released only after the unused sinks were destroyed: removal has completed when remove_logger_blocking returns" */
 __CPROVER_ensures((g_tracked_flag_stored ? 1 : 0) == ((g_k < g_n_removed && g_tracked_has_flag) ? 1 : 0)) /*@ C17 "the completion flag is set exactly for loggers that were actually erased and whose removal was requested blocking" */
